@@ -184,7 +184,7 @@ func (sc *Scope) evalIdent(name string) Val {
 		if _, ok := c.compSort[comp]; !ok {
 			c.compSort[comp] = s
 		}
-		return Val{T: c.hget(sc.cur, comp), S: s, GT: t}
+		return Val{T: c.hget(sc.cur, comp), S: s, GT: t, TrackArr: strings.HasPrefix(string(s), "(Array ")}
 	}
 	if sc.pkg != nil {
 		if obj := sc.pkg.Scope().Lookup(name); obj != nil {
@@ -292,6 +292,11 @@ func (sc *Scope) evalSel(x *ESel) Val {
 	if p, ok := base.GT.Underlying().(*types.Pointer); ok {
 		stT = p.Elem()
 		viaPtr = true
+		if pp, ok := stT.Underlying().(*types.Pointer); ok && isStruct(pp.Elem()) && !base.Addr {
+			// captured variable cell (**T): load the cell first
+			base = Val{T: c.hsel(sc.cur, c.cellComp(stT), base.T), S: SRef, GT: stT}
+			stT = pp.Elem()
+		}
 	} else {
 		stT = base.GT
 	}
@@ -337,9 +342,12 @@ func (sc *Scope) evalIdx(x *EIdx) Val {
 	base := sc.eval(x.X)
 	iv := sc.rvalue(sc.eval(x.I))
 	if base.TrackArr {
-		i := sc.toIdx(iv)
-		es := strings.TrimSuffix(strings.TrimPrefix(string(base.S), fmt.Sprintf("(Array %s ", c.intS())), ")")
-		return Val{T: fmt.Sprintf("(select %s %s)", base.T, i), S: Sort(es), GT: base.GT}
+		ks, es := arraySorts(string(base.S))
+		i := iv.T
+		if ks == string(c.intS()) {
+			i = sc.toIdx(iv)
+		}
+		return Val{T: fmt.Sprintf("(select %s %s)", base.T, i), S: Sort(es), GT: base.GT, TrackArr: strings.HasPrefix(es, "(Array ")}
 	}
 	if base.Addr {
 		// array lvalue
@@ -359,7 +367,7 @@ func (sc *Scope) evalIdx(x *EIdx) Val {
 	switch u := base.GT.Underlying().(type) {
 	case *types.Slice:
 		i := sc.toIdx(iv)
-		ref := fmt.Sprintf("(elem (sl_arr %s) %s)", base.T, c.add(fmt.Sprintf("(sl_off %s)", base.T), i))
+		ref := fmt.Sprintf("(sidx %s %s)", base.T, i)
 		et := u.Elem()
 		if isStruct(et) || isArray(et) {
 			return Val{T: ref, S: SRef, GT: types.NewPointer(et), Addr: true}
@@ -591,6 +599,14 @@ func (sc *Scope) resolveSpecType(name string) (types.Type, Sort) {
 		et, es := sc.resolveSpecType(name[4 : len(name)-1])
 		return et, Sort(fmt.Sprintf("(Array %s %s)", c.intS(), es))
 	}
+	if strings.HasPrefix(name, "map(") && strings.HasSuffix(name, ")") {
+		parts := splitTop(name[4 : len(name)-1])
+		if len(parts) == 2 {
+			_, ks := sc.resolveSpecType(parts[0])
+			vt, vs := sc.resolveSpecType(parts[1])
+			return vt, Sort(fmt.Sprintf("(Array %s %s)", ks, vs))
+		}
+	}
 	switch name {
 	case "int":
 		return types.Typ[types.Int], c.sortOf(types.Typ[types.Int])
@@ -791,6 +807,16 @@ func (sc *Scope) evalCall(x *ECall) Val {
 		v := sc.eval(x.Args[0])
 		c.compSort["$held"] = "(Array Ref Bool)"
 		return Val{T: c.hsel(sc.cur, "$held", v.T), S: SBool, GT: boolT}
+	case "slice":
+		need(3)
+		v := arg(0)
+		lo, hi := sc.toIdx(arg(1)), sc.toIdx(arg(2))
+		return Val{T: fmt.Sprintf("(mk_Slice (sl_arr %s) %s %s %s)", v.T, c.add(fmt.Sprintf("(sl_off %s)", v.T), lo), c.sub(hi, lo), c.sub(fmt.Sprintf("(sl_cap %s)", v.T), lo)), S: SSlice, GT: v.GT}
+	case "closed":
+		need(1)
+		v := arg(0)
+		c.compSort["$closed"] = "(Array Ref Bool)"
+		return Val{T: c.hsel(sc.cur, "$closed", v.T), S: SBool, GT: boolT}
 	case "store":
 		need(3)
 		a := sc.eval(x.Args[0])
@@ -967,4 +993,27 @@ func exprMentions(e Expr, name string) bool {
 		return exprMentions(e.X, name)
 	}
 	return false
+}
+
+// arraySorts splits "(Array K V)" into K and V.
+func arraySorts(s string) (string, string) {
+	s = strings.TrimSpace(s)
+	if !strings.HasPrefix(s, "(Array ") {
+		return "", ""
+	}
+	body := s[7 : len(s)-1]
+	depth := 0
+	for i, r := range body {
+		switch r {
+		case '(':
+			depth++
+		case ')':
+			depth--
+		case ' ':
+			if depth == 0 {
+				return body[:i], strings.TrimSpace(body[i+1:])
+			}
+		}
+	}
+	return "", ""
 }
